@@ -393,13 +393,19 @@ func c20R4(e *Engine) {
 	if nativeCall == nil || langCall == nil {
 		e.fail("R4", "core.Table.interpreterMatch:fallback", e.pos(im.Pos()), "expected one call of Native.Match and one of Language.Match (native:%v language:%v)", nativeCall != nil, langCall != nil)
 	} else {
-		// native guarded by UseNativeInterpreter
+		// native guarded by UseNativeInterpreter – and by nothing else: every request of a table that uses the native
+		// interpreter is offered to it (a remembered miss, say, would hide matchers registered later or for another kind)
 		guarded := false
 		for _, cd := range condsAt(nativeCall.Block()) {
 			cd = normCond(cd)
 			if cd.Val && isLoadOfField(cd.V, useF) {
 				guarded = true
+				continue
 			}
+			e.fail("R4", "core.Table.interpreterMatch:native-always-consulted", e.ipos(nativeCall), "the native interpreter is consulted only when additionally %s holds: for a table that uses the native interpreter some requests never reach the registered matchers", cd.V.String())
+		}
+		if len(nativeCall.Block().Preds) > 1 {
+			e.fail("R4", "core.Table.interpreterMatch:native-always-consulted", e.ipos(nativeCall), "the call of the native interpreter is reached through a join of several branches: whether every request of a native table is offered to it cannot be established")
 		}
 		// returns: the native verdict is returned only on err==nil; language verdict otherwise
 		okRet := true
